@@ -57,6 +57,9 @@ Definition should_follow_href (href : str) : bool :=
 Definition link_opts : is_url_opts :=
   {| require_protocol := true; tld_aware := true; allow_spaces_in_path := true; only_http_https := true |}.
 
+(* an href carrying its own scheme is taken as it is; a scheme-relative one ("//host/path") is joined to the base *)
+Definition keeps_own_scheme (url : str) : bool := negb (starts [47; 47] url) && has_protocol url.
+
 (* links_from_html over the list of (already unescaped) hrefs *)
 Fixpoint links_go (e : env) (base : str) (canonicalize strip_fragment unique : bool) (hrefs : list str) (seen : list str) : res (list str) :=
   match hrefs with
@@ -66,7 +69,7 @@ Fixpoint links_go (e : env) (base : str) (canonicalize strip_fragment unique : b
       if is_empty url then skip
       else if negb (should_follow_href url) then skip
       else
-        let* url := if has_protocol url then Ok url else urljoin e base url in
+        let* url := if keeps_own_scheme url then Ok url else urljoin e base url in
         let* ok := is_url e link_opts url in
         if negb ok then skip
         else
